@@ -91,7 +91,10 @@ impl<const N: usize> NodeVersions<N> {
                 // This means we can no longer trust that this key is in fact still valid.
                 if &ts < entry.get() {
                     self.compute_safe_last_stamp(ts.node());
-                    return false;
+
+                    // An older stamp is only refused once it falls behind the safe
+                    // (forgiveness adjusted) cut-off, the same rule `will_apply` uses.
+                    return !self.is_ts_before_last_observed_event(ts);
                 }
 
                 entry.insert(ts);
